@@ -214,6 +214,12 @@ class _GridUFuncSignature:
         return True
 
 
+def _names_and_positions(arg: str) -> Tuple[Tuple[str, ...], Tuple[str, ...]]:
+    """Split the text of one argument (e.g. "X:center,Y:left") into its axis names and its axis positions."""
+    pairs = re.findall(rf"({_AXIS_NAME})\s*:\s*({_AXIS_POSITION})", arg)
+    return tuple(name for name, _ in pairs), tuple(pos for _, pos in pairs)
+
+
 def _parse_signature_from_string(
     signature: str,
 ) -> Tuple[T_AX_POS_LIST, T_AX_POS_LIST, T_AX_POS_LIST, T_AX_POS_LIST]:
@@ -231,23 +237,18 @@ def _parse_signature_from_string(
 
     in_txt, out_txt = signature.split("->")
 
-    in_ax_names = []
+    # Names and positions are read pair by pair, so that a name may contain a position word
+    in_ax_names, in_ax_pos = [], []
     for arg in re.findall(_ARGUMENT, in_txt):
-        # Delete the axis positions so they aren't matched as axis names
-        only_names = re.sub(_AXIS_POSITION, "", arg)
-        in_ax_names.append(tuple(re.findall(_AXIS_NAME, only_names)))
+        names, positions = _names_and_positions(arg)
+        in_ax_names.append(names)
+        in_ax_pos.append(positions)
 
-    out_ax_names = []
+    out_ax_names, out_ax_pos = [], []
     for arg in re.findall(_ARGUMENT, out_txt):
-        only_names = re.sub(_AXIS_POSITION, "", arg)
-        out_ax_names.append(tuple(re.findall(_AXIS_NAME, only_names)))
-
-    in_ax_pos = [
-        tuple(re.findall(_AXIS_POSITION, arg)) for arg in re.findall(_ARGUMENT, in_txt)
-    ]
-    out_ax_pos = [
-        tuple(re.findall(_AXIS_POSITION, arg)) for arg in re.findall(_ARGUMENT, out_txt)
-    ]
+        names, positions = _names_and_positions(arg)
+        out_ax_names.append(names)
+        out_ax_pos.append(positions)
 
     return in_ax_names, in_ax_pos, out_ax_names, out_ax_pos
 
@@ -278,15 +279,11 @@ def _parse_signature_from_type_hints(
             if hasattr(hint, "__metadata__")
         ]
 
-        out_ax_names = []
+        out_ax_names, out_ax_pos = [], []
         for arg in return_annotations:
-            # Delete the axis positions so they aren't matched as axis names
-            only_names = re.sub(_AXIS_POSITION, "", arg)
-            out_ax_names.append(tuple(re.findall(_AXIS_NAME, only_names)))
-
-        out_ax_pos = [
-            tuple(re.findall(_AXIS_POSITION, arg)) for arg in return_annotations
-        ]
+            names, positions = _names_and_positions(arg)
+            out_ax_names.append(names)
+            out_ax_pos.append(positions)
 
     # Now do input args
     arg_annotations = [
@@ -295,13 +292,11 @@ def _parse_signature_from_type_hints(
 
     # TODO check number of annotations?
 
-    in_ax_names = []
+    in_ax_names, in_ax_pos = [], []
     for arg in arg_annotations:
-        # Delete the axis positions so they aren't matched as axis names
-        only_names = re.sub(_AXIS_POSITION, "", arg)
-        in_ax_names.append(tuple(re.findall(_AXIS_NAME, only_names)))
-
-    in_ax_pos = [tuple(re.findall(_AXIS_POSITION, arg)) for arg in arg_annotations]
+        names, positions = _names_and_positions(arg)
+        in_ax_names.append(names)
+        in_ax_pos.append(positions)
 
     # Do a sanity check before going any further
     str_signature = str(
